@@ -3,6 +3,8 @@
 package bluemonday
 
 import (
+	"strings"
+
 	"golang.org/x/net/html"
 )
 
@@ -145,4 +147,120 @@ func pickEl(tag string, choices ...string) string {
 	}
 	verifAssume(verifMatch(`^[a-z][^\s/>A-Z\x00]*$`, e))
 	return e
+}
+
+// ---- C12 forced attributes ----------------------------------------------------
+
+var sandboxTokens = []string{
+	"allow-downloads", "allow-downloads-without-user-activation", "allow-forms", "allow-modals",
+	"allow-orientation-lock", "allow-pointer-lock", "allow-popups", "allow-popups-to-escape-sandbox",
+	"allow-presentation", "allow-same-origin", "allow-scripts", "allow-storage-access-by-user-activation",
+	"allow-top-navigation", "allow-top-navigation-by-user-activation",
+}
+
+func HarnessC12_forced() {
+	p := &Policy{}
+	p.init()
+	mode := nondetIntRange("mode", 0, 2)
+	verifNoteInt("mode", mode)
+	if mode != 1 {
+		p.RequireCrossOriginAnonymous(true)
+	}
+	var allowed []bool
+	if mode != 0 {
+		// an entry mapped to false behaves like an absent entry for every lookup
+		// the filter makes, so a symbolic value per documented token covers all
+		// subsets without forking
+		p.requireSandboxOnIFrame = map[string]bool{}
+		for _, t := range sandboxTokens {
+			b := nondetBool("sb." + t)
+			verifNoteBool("sb."+t, b)
+			p.requireSandboxOnIFrame[t] = b
+			allowed = append(allowed, b)
+		}
+	}
+	allowGlobally(p, "crossorigin", "sandbox", "other")
+	el := pickEl("el", "audio", "img", "link", "script", "video", "iframe")
+	n := nondetIntRange("in.n", 1, verifParam("maxAttrs"))
+	in := symAttrs(n, "crossorigin", "sandbox", "other")
+	noteAttrs("in", in)
+	verifNote("el", el)
+	out := p.sanitizeAttrs(el, in, p.elsAndAttrs[el])
+	noteAttrs("out", out)
+	if len(out) == 0 {
+		return
+	}
+	verifReach("C12-emitted-with-attributes")
+	ok := true
+	check := func(c bool, id string) {
+		verifNoteBool("c:"+id, c)
+		ok = verifAnd(ok, c)
+	}
+	if mode != 1 && (el == "audio" || el == "img" || el == "link" || el == "script" || el == "video") {
+		found := false
+		for _, a := range out {
+			if a.Key == "crossorigin" {
+				found = true
+				check(a.Val == "anonymous", "crossorigin-anonymous")
+			}
+		}
+		check(found, "crossorigin-present")
+	}
+	if mode != 0 && el == "iframe" {
+		found := false
+		for _, a := range out {
+			if a.Key == "sandbox" {
+				found = true
+				// The emitted value is re-read as a browser does (split on ASCII
+				// white space): every token is one the policy listed, none twice.
+				toks := stringsFields(a.Val)
+				for i, t := range toks {
+					listed := false
+					for j, lit := range sandboxTokens {
+						listed = verifOr(listed, verifAnd(t == lit, allowed[j]))
+					}
+					check(listed, "sandbox-token-listed")
+					for k := 0; k < i; k++ {
+						check(toks[k] != t, "sandbox-no-duplicates")
+					}
+				}
+				// and it is in canonical form: single spaces, no padding
+				check(a.Val == stringsJoin(toks), "sandbox-canonical")
+			}
+		}
+		check(found, "sandbox-present")
+	}
+	verifAssert(ok, "C12")
+}
+
+func stringsFields(s string) []string { return strings.Fields(s) }
+func stringsJoin(l []string) string   { return strings.Join(l, " ") }
+
+func sandboxListPattern() string {
+	alt := ""
+	for i, t := range sandboxTokens {
+		if i > 0 {
+			alt += "|"
+		}
+		alt += t
+	}
+	return `^((` + alt + `)( (` + alt + `))*)?$`
+}
+
+// HarnessC12_builder runs the real RequireSandboxOnIFrame / AllowIFrames on
+// each documented value and compares the resulting table with the documented
+// token of that value.
+func HarnessC12_builder() {
+	for i, t := range sandboxTokens {
+		p := NewPolicy()
+		p.RequireSandboxOnIFrame(SandboxValue(i))
+		verifAssert(len(p.requireSandboxOnIFrame) == 1 && p.requireSandboxOnIFrame[t], "C12-builder-"+t)
+		q := NewPolicy()
+		q.AllowIFrames(SandboxValue(i))
+		_, hasRule := q.elsAndAttrs["iframe"]["sandbox"]
+		verifAssert(hasRule && len(q.requireSandboxOnIFrame) == 1 && q.requireSandboxOnIFrame[t], "C12-allowiframes-"+t)
+	}
+	p := NewPolicy()
+	p.RequireSandboxOnIFrame()
+	verifAssert(p.requireSandboxOnIFrame != nil && len(p.requireSandboxOnIFrame) == 0, "C12-builder-empty")
 }
